@@ -346,13 +346,22 @@ class Verifier(Calls):
         # 2. havoc everything the body may assign
         writes = {'locals': set(), 'heap': []}
         self.collect_writes(stmt.body, st, {}, True, 0, writes)
+        cfun = REG.fns.get(key)
+        if cfun is not None and cfun.ghost:
+            # ghost state is updated by callback invocations, which are not visible syntactically
+            writes['locals'].update(cfun.ghost)
         if pre_body:
             writes['locals'].add(pre_body[0])
             for n in ast.walk(stmt.target):
                 if isinstance(n, ast.Name):
                     writes['locals'].add(n.id)
-        pre_state = st.fork()
-        self.havoc_loop(st, writes, stmt)
+        fresh_bound = None
+        if spec.get('writes') == 'fresh':
+            fresh_bound = st.owner_bound if st.owner_bound is not None else st.old.alloc
+        exempt = self.havoc_loop(st, writes, stmt, fresh_bound)
+        saved_fresh_only = st.fresh_only
+        if fresh_bound is not None:
+            st.fresh_only = (fresh_bound, exempt)
         # 3. assume the invariant in the arbitrary iteration state
         for inv in invs:
             st.assume(self.eval_spec(st, inv, self.cur_spec_frame(st), old=st.old, assume=True))
@@ -395,6 +404,7 @@ class Verifier(Calls):
         for s, taken in branches:
             if not taken:
                 s.trace.append('L%d:exit' % line)
+                s.fresh_only = saved_fresh_only
                 results.append((s, 'next', None))
                 continue
             self.count_path(stmt)
@@ -414,8 +424,10 @@ class Verifier(Calls):
                         pass
                 elif kind == 'break':
                     s2.trace.append('L%d:break' % line)
+                    s2.fresh_only = saved_fresh_only
                     results.append((s2, 'next', None))
                 else:
+                    s2.fresh_only = saved_fresh_only
                     results.append((s2, kind, v))
         return results
 
@@ -717,8 +729,9 @@ class Verifier(Calls):
             return
         acc['heap'].append(('all', 'modifies %s' % mexpr, None))
 
-    def havoc_loop(self, st, writes, node):
+    def havoc_loop(self, st, writes, node, fresh_bound=None):
         assigned = writes['locals']
+        exempt = []
         probe = st.fork()
         probe.spec = True
         # heap first (receivers are evaluated in the pre-havoc state)
@@ -738,6 +751,9 @@ class Verifier(Calls):
             todo.append((kind, name, val))
         for kind, name, val in todo:
             if kind == 'all':
+                if fresh_bound is not None:
+                    self.havoc_owned(st, fresh_bound)
+                    continue
                 self.unmodelled.append('loop@L%d havocs the whole heap: %s' % (node.lineno, name))
                 self.havoc_all(st)
                 continue
@@ -749,19 +765,30 @@ class Verifier(Calls):
                     a = alts[0]
                     owner, T = self.field_info(a.cls, name, node)
                     self.store_field(st, a, name, self.make_fresh(st, T, name), node)
+                    exempt.append(a.t)
                 else:
                     for cn, cc in REG.classes.items():
                         if name in cc.fields:
                             T = parse_type(cc.fields[name])
                             for j, sort in enumerate(slots(T)):
-                                self.hset(st, (cn, name, j), fresh(z3.ArraySort(IntS, sort), 'hv_' + name))
+                                na = fresh(z3.ArraySort(IntS, sort), 'hv_' + name)
+                                if fresh_bound is not None:
+                                    # writes='fresh': locations of objects older than this call keep their values
+                                    cur = self.harr(st, (cn, name, j), sort)
+                                    r = fresh_int('fr')
+                                    st.assume(z3.ForAll([r], z3.Implies(r < fresh_bound, z3.Select(na, r) == z3.Select(cur, r))))
+                                self.hset(st, (cn, name, j), na)
             elif kind in ('list', 'item'):
                 if alts and len(alts) == 1 and isinstance(alts[0], VList):
                     self.fresh_list_contents(st, alts[0])
+                    exempt.append(alts[0].t)
                 elif alts and len(alts) == 1 and isinstance(alts[0], VRec):
                     rv = alts[0]
                     for k2, T in self.rec_fields(rv.name).items():
                         self.rec_store(st, rv, k2, self.make_fresh(st, parse_type(T), k2))
+                    exempt.append(rv.t)
+                elif fresh_bound is not None:
+                    self.havoc_owned(st, fresh_bound)
                 else:
                     self.unmodelled.append('loop@L%d: list write through an unknown receiver' % node.lineno)
                     self.havoc_all(st)
@@ -790,6 +817,7 @@ class Verifier(Calls):
                 nv = self.fresh_like(st, cur, name)
                 st.frame.loc[name] = nv
         st.lver += 1
+        return exempt
 
     def fresh_like(self, st, v, name):
         if isinstance(v, VInt):
@@ -927,6 +955,8 @@ class Verifier(Calls):
                 raise Unsupported('contract does not type parameter %r' % n, fn)
             fr.loc[n] = self.param_value(st, n, parse_type(c.params[n]), c)
         st.frames.append(fr)
+        for g, (T, init) in c.ghost.items():
+            fr.loc[g] = self.coerce(st, self.eval_spec_value(st, init, fr), parse_type(T), fn, 'ghost ' + g)
         return st
 
     def param_value(self, st, name, T, c):
@@ -1047,6 +1077,11 @@ class Verifier(Calls):
         strings = []
         frames = st.frames
 
+        def spec_state():
+            s0 = (st.old or st).fork()
+            s0.spec = True      # no obligations while reading a model
+            return s0
+
         def conc(model, v, depth=0):
             ev = lambda t: model.eval(t, model_completion=True)
             if isinstance(v, VInt):
@@ -1090,13 +1125,13 @@ class Verifier(Calls):
                         seen.add(cn)
                         for f in cc.fields:
                             try:
-                                d[f] = conc(model, self.load_field((st.old or st).fork(), VRef(cn, v.t), f), depth + 1)
+                                d[f] = conc(model, self.load_field(spec_state(), VRef(cn, v.t), f), depth + 1)
                             except Exception as e:
                                 d[f] = '<?>'
                         todo.extend(cc.bases)
                 return d
             if isinstance(v, VList):
-                s0 = (st.old or st).fork()
+                s0 = spec_state()
                 n = ev(self.list_len(s0, v)).as_long()
                 items = []
                 for i in range(max(0, min(n, 8))):
@@ -1106,11 +1141,13 @@ class Verifier(Calls):
                         items.append('<?>')
                 return {'__list__': items, '__len__': n, '__ref__': ev(v.t).as_long()}
             if isinstance(v, VRec):
-                s0 = (st.old or st).fork()
+                s0 = spec_state()
                 d = {'__rec__': v.name}
                 for k2 in self.rec_fields(v.name):
                     try:
-                        d[k2] = conc(model, self.rec_load(s0, v, k2), depth + 1)
+                        if not is_true(ev(self.rec_present(s0, v, k2))):
+                            continue
+                        d[k2] = conc(model, self.rec_load(s0, v, k2, check=False), depth + 1)
                     except Exception:
                         d[k2] = '<?>'
                 return d
@@ -1139,7 +1176,7 @@ class Verifier(Calls):
                     for f, T in cc.fields.items():
                         if 'str' in T:
                             try:
-                                collect_strings(self.load_field(st.fork(), VRef(cn, v.t), f), depth + 1)
+                                collect_strings(self.load_field(spec_state(), VRef(cn, v.t), f), depth + 1)
                             except Exception:
                                 pass
                     todo.extend(cc.bases)
